@@ -9,6 +9,10 @@ CHECKS = {
    technique="runtime monitoring: differential oracle (independent RFC 6962 reference) + panic monitor over exhaustive small trees, sampled large trees and adversarial proof triples; Miri interpreter on a slice",
    text="Runs the real astria-merkle API on every tree size 0..=64 x every leaf index x every byte position of leaf/path/root (one flipped bit each), sampled sizes up to 2^16 and thousands of decodable-but-inconsistent (path,index,size) triples; an independent RFC 6962 MTH/PATH reference and a panic monitor judge each execution; a slice is repeated under Miri. Held = no refutation on the executions produced.",
    note="trusts sha2 and the 15-line RFC 6962 reference in the harness; universality over all sizes/contents is sampled, exhaustive only for <=64 leaves (one bit per byte position)"),
+ "C09": dict(engine="conductor-celestia", cat="exploration", ref="DESIGN.md §5 C09",
+   technique="runtime monitoring: real ensure_commit_has_quorum and real decode->verify->reconstruct pipeline driven with harness-signed commits and hostile blobs; offline exact-integer oracle over the recorded event log",
+   text="Enumerates every voting-power vector over a 10-value alphabet for <=3 (quick) / <=4 (thorough) validators x every signer subset x signature defects (forged, duplicated, nil, wrong chain/height/round/block, outsider) against the real quorum check, and runs the real Celestia blob pipeline against a loopback CometBFT mock with honest and hostile metadata/rollup blobs; the Python oracle recomputes 3c>2t over distinct validly signing validators and the expected accepted set. Held = no accepted commit/metadata/rollup data outside the oracle on the executions produced.",
+   note="the harness signs, so signature validity is known by construction; ed25519 and the tendermint types are trusted; CometBFT RPC is mocked on loopback; larger validator sets are sampled"),
 }
 
 def main():
